@@ -38,7 +38,7 @@ structure Cfg where
   /-- code points which may stand between the backslash and the line end of a splice -/
   spliceWs : List Nat
   /-- code points which may not stand in a string literal (the line terminators, but JavaScript since
-  ES2019 admits U+2028 and U+2029 there) -/
+  ES2019 allows U+2028 and U+2029 there) -/
   strNls : List Nat
 
 def java : Cfg := ⟨[10, 13], false, [], [10, 13]⟩
